@@ -635,9 +635,11 @@ def gen_case(rng, idx, thorough=False, family=None):
     if family == "empty" and entry == "sexpr":
         P["body"].insert(rng.randrange(len(P["body"]) + 1), ["seq", []])
         g.feat.add("empty sequential block")
-    if family == "history" or rng.random() < 0.15:
-        case["plan"].append(["fail", rng.choice(["parse_bad", "fill_shadow", "fill_late", "used_ctx", "resolve_ctx",
-                                                  "run_bad", "used_bad"])])
+    kinds = ["parse_bad", "fill_shadow", "fill_late", "used_ctx", "resolve_ctx", "run_bad", "used_bad"]
+    if family == "history":
+        case["plan"] += [["fail", k] for k in rng.sample(kinds, 3)]
+    elif rng.random() < 0.15:
+        case["plan"].append(["fail", rng.choice(kinds)])
     if family == "reentry" or rng.random() < 0.15:
         case["plan"].append(["reentry", rng.choice(["fill_fill", "expand_fill", "fill_expand", "let_fill", "text_again",
                                                      "tables_reused", "run_fill_run"])])
@@ -712,7 +714,9 @@ def sexpr_of(case, P=None, objects=None):
         cnt[0] += 1
         return fresh(v) if isinstance(v, str) else num(case, v, cnt[0])
 
-    def arg(a):
+    def arg(a, native):
+        if native and a[0] == "i" and not isinstance(a[1], str):
+            return a[1]           # the classical argument of a native gate keeps its type (C06 is about indices)
         key = json.dumps(a)
         if case.get("share") and key in cache:
             return cache[key]
@@ -722,7 +726,7 @@ def sexpr_of(case, P=None, objects=None):
 
     def st(s):
         if s[0] in ("gate", "call"):
-            return ["gate", fresh(s[1]), *[arg(a) for a in s[2]]]
+            return ["gate", fresh(s[1]), *[arg(a, s[0] == "gate") for a in s[2]]]
         if s[0] == "loop":
             return ["loop", n_(s[1]) if isinstance(s[1], str) else s[1], ["sequential_block", *[st(x) for x in s[2]]]]
         return ["parallel_block" if s[0] == "par" else "sequential_block", *[st(x) for x in s[1]]]
@@ -777,7 +781,9 @@ def builder_build(case):
             b.macro(x[1], x[2:-1], x[-1], unevaluated=True)
     cache = {}
 
-    def arg(a):
+    def arg(a, native):
+        if native and a[0] == "i" and not isinstance(a[1], str):
+            return a[1]
         key = json.dumps(a)
         if case.get("share") and key in cache:
             return cache[key]
@@ -787,7 +793,7 @@ def builder_build(case):
 
     def put(bb, s):
         if s[0] in ("gate", "call"):
-            bb.gate(fresh(s[1]), *[arg(a) for a in s[2]])
+            bb.gate(fresh(s[1]), *[arg(a, s[0] == "gate") for a in s[2]])
         elif s[0] == "loop":
             blk = L["SequentialBlockBuilder"]()
             for x in s[2]:
@@ -859,7 +865,7 @@ class Check:
         self.rec_as = rec_as
 
     def rec(self, name, ok, detail=""):
-        if not ok and "is not an integer" in detail and any(f.startswith("np") for f in self.case.get("forms") or []):
+        if not ok and ("is not an integer" in detail or "Qubit index " in detail) and any(f.startswith("np") for f in self.case.get("forms") or []):
             self.info.append("a numpy number is refused as an index at a later stage (not held against the library)")
             return
         if self.rec_as and name != "C06t_unchanged":
@@ -1038,8 +1044,8 @@ class Check:
             return out
 
         r = guarded(read)
+        self.rec("C06t_yields", r[0] == "ok", f"{view}: run_jaqal_circuit on a valid program: {r[1:]}")
         if r[0] != "ok":
-            self.rec("C06t_yields", False, f"{view}: run_jaqal_circuit on a valid program: {r[1:]}")
             return
         got = r[1]
         ok = got["state"].shape == want.shape and bool(np.allclose(got["state"], want, atol=1e-9))
@@ -1057,11 +1063,13 @@ class Check:
         before = repr(c.body) + repr(list(c.macros.values())) + repr(list(c.registers.values()))
         self.structured(view, c)
         fl_ = guarded(lambda: L["fill_in_let"](c))
+        self.rec("C06t_yields", fl_[0] == "ok", f"{view}: fill_in_let of a valid program: {fl_[1:]}")
         if fl_[0] == "ok":
             self.structured(view + ", fill_in_let", fl_[1])
-        else:
+        elif False:
             self.rec("C06t_yields", False, f"{view}: fill_in_let of a valid program: {fl_[1:]}")
         ex = guarded(lambda: L["expand_macros"](c))
+        self.rec("C06t_yields", ex[0] == "ok", f"{view}: expand_macros of a valid program: {ex[1:]}")
         if ex[0] == "ok":
             self.flat_view(view + ", expand_macros", ex[1])
             fm = guarded(lambda: L["fill_in_map"](ex[1]))
@@ -1069,8 +1077,6 @@ class Check:
                 self.flat_view(view + ", expand_macros, fill_in_map", fm[1], True)
             else:
                 self.rec("C06t_fill", False, f"{view}: fill_in_map after expand_macros refuses a valid program: {fm[1:]}")
-        else:
-            self.rec("C06t_yields", False, f"{view}: expand_macros of a valid program: {ex[1:]}")
         fm = guarded(lambda: L["fill_in_map"](c))
         if index_by_param(self.P):
             self.info.append("fill_in_map not applicable before expansion (index through a macro parameter)")
@@ -1158,6 +1164,7 @@ def check_case(case):
             K.rec("C06t_yields", False, f"{case['entry']} front end on a valid program: {br[1:]}")
         return K.checks, K.info
     c = br[1]
+    K.rec("C06t_yields", True)
     filled, expanded = K.passes("as built", c)
     for step in case.get("plan", []):
         if step[0] == "fail":
